@@ -64,4 +64,48 @@ def mergeAll (ev : RawEval) : Obj → List Corr → Obj × Option UErr
     | (o', none) => mergeAll ev o' ds
     | (o', some e) => (o', some e)
 
+/-! ### libraries and file trees -/
+
+open PGA.GroupName in
+/-- the canonical name a group text is filed under (`Group.parse(...).name`); texts that do not parse have none -/
+def canonOf (text : List Char) : Option Name :=
+  match parse text with
+  | .ok g => some g.name
+  | .error _ => none
+
+/-- the groups of one file are well formed for the theorems: every text parses, its entry loaded to a consistent part
+of the whole `Wg name` (plain numbers), and no two texts of the file denote the same group -/
+structure GroupsOK (Wg : GroupName.Name → Corr) (groups : GroupsD) : Prop where
+  each : ∀ te ∈ groups, ∃ g l c, GroupName.parse te.1 = .ok g ∧ te.2 = .ok (some l) ∧ toCorr l = some c ∧
+    PartOf c (Wg g.name) ∧ Valid c
+  distinct : (groups.map fun te => canonOf te.1).Nodup
+
+/-- every file of the tree is well formed -/
+def TreeOK (Wg : GroupName.Name → Corr) : Incs → Prop
+  | .nil => True
+  | .cons groups sub rest => GroupsOK Wg groups ∧ TreeOK Wg sub ∧ TreeOK Wg rest
+
+/-- the correlations one file gives for the group `g` -/
+def ownEntries (groups : GroupsD) (g : GroupName.Name) : List Corr :=
+  groups.filterMap fun te =>
+    if canonOf te.1 = some g then
+      match te.2 with
+      | .ok (some l) => toCorr l
+      | _ => none
+    else none
+
+/-- all correlations a tree of files gives for the group `g` -/
+def treeEntries : Incs → GroupName.Name → List Corr
+  | .nil, _ => []
+  | .cons groups sub rest, g => ownEntries groups g ++ treeEntries sub g ++ treeEntries rest g
+
+/-- what a library holds for each group, relative to the entries `E` merged into it: nothing when there are none, else
+a freshly built consistent part of the whole that holds exactly the data of those entries -/
+def LibInv (Wg : GroupName.Name → Corr) (E : GroupName.Name → List Corr) (lib : Lib) : Prop :=
+  (lib.map Prod.fst).Nodup ∧
+  ∀ g, match libLookup g lib with
+    | none => E g = []
+    | some none => False
+    | some (some o) => o = fresh o.c ∧ PartOf o.c (Wg g) ∧ Valid o.c ∧ Covers (E g) o.c ∧ E g ≠ []
+
 end PGA.Merge
